@@ -181,10 +181,10 @@ class FieldData:
          renaming_connected = True
     if renaming_connected:
       # check the new identifier before the line leaves the registry
+      if value is not None and self.vlevel >= 1:
+        gfapy.Field._validate_gfa_field(value,
+            self._field_datatype(fieldname), fieldname)
       if value is not None and not gfapy.is_placeholder(value):
-        if self.vlevel >= 1:
-          gfapy.Field._validate_gfa_field(value,
-              self._field_datatype(fieldname), fieldname)
         other = self._gfa.line(value)
         if other is not None and other is not self:
           raise gfapy.NotUniqueError(
